@@ -122,6 +122,32 @@ def handle (op : String) (args : List String) (impl : Impl) : Option Ans :=
     pure { model := m, spec := sp,
            branch := "ecmp_dyn:" ++ a.ts.name ++ "," ++ b.ts.name ++ ":" ++
              (if !far then "within_170ns" else if absI gap < 2200 then "170ns-2us" else if absI gap < 1000000000 then "<1s" else "far") }
+  | "weekday", [e] | "weekday_utc", [e] | "weekday_ts", [e, _] => do
+    -- C16 for epochs HELD in ET or TDB (the handler of Drive/Epoch answers nothing for them): the weekday of the calendar
+    -- date in the target scale; the instant comes from the closed form (30 ns), so the verdict is demanded when the civil
+    -- time of day is more than one second away from midnight
+    let e ← parseEp? e
+    if !(e.ts == TS.ET || e.ts == TS.TDB) then none else
+    let ts ← (match op, args with
+      | "weekday", _ => some TS.TAI | "weekday_utc", _ => some TS.UTC
+      | _, [_, t] => TS.ofString? t | _, _ => none)
+    if ts == TS.ET || ts == TS.TDB then none else
+    let i ← instEst e
+    let v : Option Int := if ts == TS.UTC then
+        (let cands := (0 :: iersTbl.map (·.2)).map (fun l => i - l * 1000000000) |>.filter (fun v => denotes iersTbl "UTC" v i)
+         cands.head?)
+      else (scaleOff ts.name).map (fun o => i - o)
+    let m := (toTimeScaleF e ts).map (fun x => weekdayOfDur (Dur.add x.dur (Cal.gregorianEpochOffset ts)))
+    let sp := match impl, v with
+      | .ok [w], some v =>
+        let cv := v + refOffsetNs ts.name
+        let tod := cv % nsPerDay
+        if tod < 1000000000 || tod > nsPerDay - 1000000000 then "na"
+        else verdict [("civil_weekday", w == toString (specWeekday cv))]
+      | .ok _, _ => "na"
+      | .other x, _ => "FAIL:" ++ x
+    pure { model := (match m with | some w => "ok " ++ toString w | none => "unmodelled"), spec := sp,
+           branch := op ++ ":" ++ e.ts.name ++ ">" ++ ts.name }
   | "dyn_rt", [e, ts] => do
     let e ← parseEp? e; let ts ← TS.ofString? ts
     let m := (toTimeScaleF e ts).bind (fun x => toTimeScaleF x e.ts)
